@@ -40,10 +40,6 @@ func init() {
 }
 
 func init() {
-	registry["C17"] = unit.CheckC17
-}
-
-func init() {
 	registry["C15"] = func(run *harness.Run) int {
 		fs, ev, inc := unit.CheckC15Registry(run)
 		rfs, rev, rinc := rtPart(run, "ctx", 64, 3000, map[string]int{"C15 contexts captured": 20, "C15 leave stimuli judged": 20, "C15 construction-time parkings judged": 5})
